@@ -160,6 +160,15 @@ fn class(o: &DecOut) -> &'static str {
 
 impl C11 {
 	fn exec_datum(&self, scn: &Scn, out: &mut Outcome) {
+		if scn.bytes.len() >= 8192 {
+			out.count("scale_input_of_8_kib_or_more", 1);
+		}
+		if scn.bytes.len() > 65536 {
+			out.count("scale_input_above_64_kib", 1);
+		}
+		if scn.tokens.iter().any(|t| matches!(t.kind, crate::ref_datum::TokKind::BlockCount | crate::ref_datum::TokKind::UnionIndex | crate::ref_datum::TokKind::EnumIndex) && t.len >= 2) {
+			out.count("scale_count_or_index_of_two_bytes_or_more", 1);
+		}
 		let env = Env::build(&scn.schema);
 		let schema = match world::parse_schema(&scn.schema) {
 			Ok(s) => s,
@@ -382,7 +391,14 @@ impl Prop for C11 {
 			return container::gen_c11_container(rng);
 		}
 		let corner = ast::corner_schemas();
-		let schema = if rng.chance(1, 10) {
+		let mut scale = None;
+		let schema = if rng.chance(1, 40) {
+			// deliberately large-scale (multi-byte counts / indices, values around 8 KiB and 64 KiB, deep nesting)
+			let cheap = rng.chance(2, 3);
+			let (ty, sc) = ast::gen_scale_schema(rng, cheap);
+			scale = Some(sc);
+			ty
+		} else if rng.chance(1, 10) {
 			rng.pick(&corner).clone()
 		} else {
 			let cfg = GenCfg::default_swarm(rng);
@@ -394,8 +410,7 @@ impl Prop for C11 {
 			max_depth: 4,
 			budget: 8 + rng.below(40) as i32,
 			// one scenario in forty carries strings / bytes around the 8 KiB BufReader capacity or above
-			str_boost: if rng.chance(1, 40) { *rng.pick(&[300usize, 9000, 17000, 40000]) } else { 0 },
-		};
+			str_boost: if rng.chance(1, 40) { *rng.pick(&[300usize, 9000, 17000, 40000]) } else { 0 }, scale: None }.with_scale(scale);
 		let v = val::gen_val(rng, &env, &schema, &vcfg);
 		let gk = rng.below(12);
 		let layout = match gk {
